@@ -16,6 +16,7 @@ SEM = {
     'C08': dict(viol={'C08'}, phases={'ctx', 'err'}, ctx_fields={'rekey', 'close', 'aclose', 'sender'}, ctx_kinds={'self'}),
     'C09': dict(viol={'C09'}, phases={'ctx', 'err'}, ctx_fields={'fee'}, ctx_kinds={'self'}),
     'C10': dict(viol={'C10'}, phases={'ctx', 'err'}, ctx_fields=None, ctx_kinds={'at', 'abs', 'rel'}),
+    'C02': dict(viol={'C02'}, phases={'paths', 'err'}, ctx_fields=None, ctx_kinds=None),
     'C04': dict(viol={'C04'}, phases={'cfg', 'err'}, ctx_fields=None, ctx_kinds=None),
 }
 
